@@ -81,7 +81,12 @@ func (d *c08Dialer) h3dial(ctx context.Context, addr string, tlsCfg *tls.Config,
 	if r != nil {
 		atomic.AddInt32(&r.dialsDone, 1)
 		if err == nil {
-			r.hit("dialDone", "dialDone", true)
+			if r.hit("dialDone", "dialDone", true) && r.stallAt {
+				select {
+				case <-r.release:
+				case <-time.After(c08HardLimit):
+				}
+			}
 		}
 	}
 	if err != nil {
